@@ -628,9 +628,9 @@ def run(ctx):
     for fl in flavours(ctx):
         ctx.unit = fl
         ctx.doc('C02.11', 'native API forwarding: each public entry point of this property reaches the implementation of the same name with its parameters in order and returns its result (sibling slips such as trylock -> lock, signal -> broadcast, swapped arguments)')
-        lib.native_forwarding(ctx, 'C02.11', fl, lambda n: n in ('myth_yield', 'myth_yield_ex', 'myth_sched_yield', 'myth_steal'), floor=3)
-        rule9_init(ctx, fl)
-        rule10_wsapi(ctx, fl)
+        ctx.attempt(lib.native_forwarding, ctx, 'C02.11', fl, lambda n: n in ('myth_yield', 'myth_yield_ex', 'myth_sched_yield', 'myth_steal'), floor=3)
+        ctx.attempt(rule9_init, ctx, fl)
+        ctx.attempt(rule10_wsapi, ctx, fl)
         stops = lib.SPIN_STOPS
         vn = ctx.view(NATIVE, roots=['myth_queue_push', 'myth_queue_pop', 'myth_queue_put', 'myth_queue_trypass',
                                      'myth_wsapi_runqueue_take', 'myth_wsapi_runqueue_peek'], stops=stops, flavour=fl)
@@ -640,19 +640,19 @@ def run(ctx):
                                  'myth_wsapi_runqueue_take', 'myth_wsapi_runqueue_peek')}
         views['myth_queue_take'] = vw
         views['myth_queue_clear'] = vi
-        rule1_dekker(ctx, views)
-        rule2_locks(ctx, views)
-        rule3_publish(ctx, views)
-        rule4_rollback(ctx, views)
-        rule5_owner(ctx, fl)
-        rule6_nodrop(ctx, fl)
-        rule7_recentre(ctx, views)
+        ctx.attempt(rule1_dekker, ctx, views)
+        ctx.attempt(rule2_locks, ctx, views)
+        ctx.attempt(rule3_publish, ctx, views)
+        ctx.attempt(rule4_rollback, ctx, views)
+        ctx.attempt(rule5_owner, ctx, fl)
+        ctx.attempt(rule6_nodrop, ctx, fl)
+        ctx.attempt(rule7_recentre, ctx, views)
         from . import c16
         with ctx.shared({'C16.10': 'C02.12'}, floor=4,
                         doc='a yielding thread re-queues itself behind the threads that are already runnable on its worker (shared with '
                             'C16.10): with the head insertion two yielders hand the worker to each other and a third runnable thread in '
                             'the same queue is never resumed although it was never removed'):
-            c16.rule10_yield(ctx, fl)
+            ctx.attempt(c16.rule10_yield, ctx, fl)
 
 
 WSQ = 'src/myth_wsqueue_func.h'
